@@ -17,7 +17,8 @@ Fixpoint tests_s (x : nat) (s : stmt) : bool :=
   match s with
   | SAssign _ _ | SProbe _ _ => false
   | SIf c t r => ctests x c || tests_b x t || tests_r x r
-  | SWhile c b | SBreakIf c b => ctests x c || tests_b x b
+  | SWhile c b | SBreakIf c b | SReturnIf _ c b => ctests x c || tests_b x b
+  | SAssert c => ctests x c
   | SRepeat b c => tests_b x b || ctests x c
   | SWhileTrue b | SFor _ _ b => tests_b x b
   end
@@ -38,6 +39,7 @@ Fixpoint own_break_s (s : stmt) : bool :=
   match s with
   | SBreakIf _ _ => true
   | SIf _ t r => own_break_b t || own_break_r r
+  | SReturnIf _ _ b => own_break_b b
   | _ => false
   end
 with own_break_r (r : rest) : bool :=
@@ -60,9 +62,9 @@ with own_break_b (b : block) : bool :=
       iteration (the end of the body is not merged into the flow after a [repeat]). *)
 Fixpoint ok_loops_s (x : nat) (s : stmt) : bool :=
   match s with
-  | SAssign _ _ | SProbe _ _ => true
+  | SAssign _ _ | SProbe _ _ | SAssert _ => true
   | SIf _ t r => ok_loops_b x t && ok_loops_r x r
-  | SBreakIf _ b => ok_loops_b x b
+  | SBreakIf _ b | SReturnIf _ _ b => ok_loops_b x b
   | SWhile _ b => negb (assigns_b x b) && ok_loops_b x b
   | SWhileTrue b => (negb (assigns_b x b) || negb (tests_b x b)) && ok_loops_b x b
   | SRepeat b _ => (negb (assigns_b x b) || (negb (tests_b x b) && negb (own_break_b b))) && ok_loops_b x b
@@ -83,8 +85,9 @@ with ok_loops_b (x : nat) (b : block) : bool :=
 (** the fragment of C15: no loops (and hence no break) *)
 Fixpoint loop_free_s (s : stmt) : bool :=
   match s with
-  | SAssign _ _ | SProbe _ _ => true
+  | SAssign _ _ | SProbe _ _ | SAssert _ => true
   | SIf _ t r => loop_free_b t && loop_free_r r
+  | SReturnIf _ _ b => loop_free_b b
   | _ => false
   end
 with loop_free_r (r : rest) : bool :=
@@ -111,7 +114,8 @@ Fixpoint opq_s (s : stmt) : nat :=
   match s with
   | SAssign _ _ | SProbe _ _ => 0
   | SIf c t r => copq c + opq_b t + opq_r r
-  | SWhile c b | SBreakIf c b | SRepeat b c => copq c + opq_b b
+  | SWhile c b | SBreakIf c b | SRepeat b c | SReturnIf _ c b => copq c + opq_b b
+  | SAssert c => copq c
   | SWhileTrue b | SFor _ _ b => opq_b b
   end
 with opq_r (r : rest) : nat :=
